@@ -92,7 +92,7 @@ pub fn record_hooks(ev: &mut Evidence) {
 
 pub fn run(ctx: &Ctx) -> Evidence {
     let mut ev = ctx.evidence("C11", "exploration");
-    let histories = ctx.tier.pick(1000usize, 4000usize);
+    let histories = ctx.tier.pick(1000usize, 12000usize);
     let max_requests = 300usize;
     ev.rule = "seeded random leader histories of 50-300 requests from 1-4 sessions (set, cset chains, rejected writes, delete, pdelete, imports with CAS entries, pipelined bursts, connects, graveGoods/lastWill registrations, rejected $SYS writes, disconnects) against a real leader with 1-2 real followers joining at position 0, early or anywhere; after every join, about every 15-80 requests and at the end a marker write is awaited on each follower and leader and follower are compared (pget # minus $SYS, cget per key, $SYS/clients/?/graveGoods|lastWill), then 11 kinds of direct writes are offered to the follower (NotLeader + unchanged snapshot incl. $SYS). A history is non-trivial if after a follower joined at least one request was accepted and one rejected and at least one key was compared at a quiescent point; distinct = distinct step lists.".into();
     let perturb_seed = enable_perturbation(ctx);
